@@ -5,7 +5,7 @@ from .C03 import strict_parse
 from .C12 import derive, retype, unwrap
 
 SPEC_THEOREM = 'Props/C11: is_jsonb separates text from encodings; every dispatching function gives the same result on spell d and enc (denote d)'
-TRUSTED = ['Coq 8.16.1 kernel', 'translator (is_jsonb byte set)', 'extraction + OCaml driver', 'Rust harness', 'model Dispatch.v (the dispatch of every public function as written)']
+TRUSTED = ['Coq 8.16.1 kernel', 'translator (is_jsonb byte set)', 'extraction + OCaml driver', 'Rust harness', 'offset-faithful walker models (Iter.v, Builder.v, *Walk*.v) tied to the Rust functions by correspondence on valid and corrupt buffers; tree-level specifications TreeOps.v / SetOps.v / PathSem.v / Contain.v / CmpKey.v / Render.v / Serde.v; text branches as in Dispatch.v']
 ASSUMPTIONS = ['JSON texts are valid, finite and do not begin with a space (a third of them begin with other white space: tab, LF, CR, FF, escaped forms); top-level count < 2^24']
 RULE = 'every public function taking documents, all 2^k text/binary choices of its k document arguments, arguments from the C05/C06/C08/C12/C13 streams (second documents unrelated to, derived from, or a re-typed copy of the first); the outcomes of the 2^k calls must be equal; non-trivial = outcome is not none/false/error'
 
